@@ -26,6 +26,7 @@ NOT_COVERED = ["real scikit-learn regressors without the Squeeze1 adapter (numpy
 ASSUMPTIONS = ["'all full windows are used once' is read as: all windows for which the targets of every requested step exist"]
 JOBS = {"quick": 4, "thorough": 16}
 STRATS = ["direct", "recursive", "multioutput", "dirrec"]
+XNAMES = ["temp", "load", "aux"]      # exogenous column labels, deliberately not in sorted order: columns keep the order they are given in
 
 
 def cases(tier, seed):
@@ -170,7 +171,7 @@ def run_case(case, ctx):
 def _frame(S, lo, hi, off, nx):
     idx = pd.RangeIndex(off + lo, off + hi)
     y = pd.Series(S[0][lo:hi], index=idx)
-    X = pd.DataFrame({"x%d" % j: S[j + 1][lo:hi] for j in range(nx)}, index=idx) if nx else None
+    X = pd.DataFrame({XNAMES[j]: S[j + 1][lo:hi] for j in range(nx)}, index=idx) if nx else None
     return y, X
 
 
@@ -242,7 +243,7 @@ def _drive(case, ctx, make_reduction, S, lid, strategy, scitype, n, wl, fh, nx, 
     Xf = None
     if nx and strategy == "recursive":
         idx = pd.RangeIndex(off + cur_n, off + cur_n + hmax)
-        Xf = pd.DataFrame({"x%d" % j: S[j + 1][cur_n:cur_n + hmax] for j in range(nx)}, index=idx)
+        Xf = pd.DataFrame({XNAMES[j]: S[j + 1][cur_n:cur_n + hmax] for j in range(nx)}, index=idx)
     ok, pred = ctx.call("reduce:%s:predict-exception" % strategy, f.predict, fha if fh_in in ("predict", "both") else None, Xf)
     if not ok:
         return
